@@ -56,7 +56,7 @@ def toml_config(desc):
     n, c = desc["net"], desc.get("cli", {})
     kw = n.get("species_kwargs", {})
     doc = {
-        "general": {"creation_time": "01/01/2024 00:00:00", "name": desc["name"], "description": desc["id"], "loads": []},
+        "general": {"creation_time": "01/01/2024 00:00:00", "name": desc["name"], "description": desc["id"], "loads": list(c.get("loads", []))},
         "chemistry": {
             "symbol": {"grain": kw.get("grain_symbol", "GRAIN"), "surface": kw.get("surface_prefix", "#"),
                        "bulk": kw.get("bulk_prefix", "@")},
